@@ -35,7 +35,61 @@ def examples(tier):
 
 
 @st.composite
+def chain_case(draw):
+    """a long line of states 0 -> 1 -> ... -> n (n = 260..320): mostly epsilon arcs, a few labelled
+    ones, some parallel arcs; deep enough for depth-bounded searches, cheap to evaluate exactly"""
+    n = draw(st.integers(260, 320))
+    pos = sorted(draw(st.lists(st.integers(0, n - 1), min_size=1, max_size=3, unique=True)))
+    arcs = []
+    for i in range(n):
+        if i in pos:
+            arcs.append([i, draw(st.sampled_from(["a", "b"])), i + 1, draw(st.sampled_from(["1", "1/2", "1/3"]))])
+            if draw(st.integers(0, 2)) == 0:
+                arcs.append([i, "", i + 1, "1/4"])
+        else:
+            arcs.append([i, "", i + 1, "1" if i % 7 else "1/2"])
+    # state numbers ascend or descend along the chain (searches that start from the smallest state
+    # number then begin at the upstream or at the downstream end)
+    order = draw(st.sampled_from(["up", "down"]))
+    nm = (lambda i: i) if order == "up" else (lambda i: n - i)
+    arcs = [[nm(q), a, nm(r), w] for q, a, r, w in arcs]
+    return {"states": [nm(i) for i in range(n + 1)], "start": [[nm(0), "1"]], "stop": [[nm(n), "1/2"]], "arcs": arcs, "regime": "QQ", "acyclic": True, "alphabet": ["a", "b"], "api": "add", "chain": True, "order": order}
+
+
+def chain_reference(M, c):
+    "exact weights of a chain case by dynamic programming over (state, symbols consumed)"
+    n = len(c["states"]) - 1
+    pos = (lambda q: q) if c.get("order", "up") == "up" else (lambda q: n - q)
+    out = {}
+    for q, a, r, w in c["arcs"]:
+        out.setdefault(pos(q), []).append((a, M.parse(w)))
+
+    def weight(xs):
+        f = {0: M.one}  # symbols consumed -> weight, at the current state
+        for q in range(n):
+            g = {}
+            for k, v in f.items():
+                for a, w in out.get(q, ()):
+                    if a == "":
+                        g[k] = M.add(g.get(k, M.zero), M.mul(v, w))
+                    elif k < len(xs) and xs[k] == a:
+                        g[k + 1] = M.add(g.get(k + 1, M.zero), M.mul(v, w))
+            f = g
+        return M.mul(f.get(len(xs), M.zero), M.parse(c["stop"][0][1]))
+
+    def total():
+        v = M.one
+        for q in range(n):
+            v = M.mul(v, M.sum(w for a, w in out.get(q, ())))
+        return M.mul(v, M.parse(c["stop"][0][1]))
+
+    return weight, total
+
+
+@st.composite
 def strategy(draw, tier="quick"):
+    if draw(st.integers(0, 119)) == 0:
+        return {"m": draw(chain_case()), "cls": "base", "n": 3}
     regime = draw(st.sampled_from(REGIMES))
     acyclic = draw(st.integers(0, 3)) == 0
     big = draw(st.integers(0, 4)) == 0
@@ -43,7 +97,35 @@ def strategy(draw, tier="quick"):
     return {"m": m, "cls": draw(st.sampled_from(["base", "field"])), "n": draw(st.sampled_from([3, 3, 4, 5])) if tier == "quick" else draw(st.sampled_from([4, 5, 6]))}
 
 
+def check_chain(case, ctx):
+    c = case["m"]
+    M = model("QQ")
+    ctx.cls("long_chain", "regime:QQ")
+    ctx.nontrivial = True
+    weight, total = chain_reference(M, c)
+    from vf.props.c05 import default_stack  # CPython's default recursion head-room, as a user has it
+
+    def guarded(f, *a):
+        with default_stack():
+            return f(*a)
+
+    m = ctx.call("build", lib_wfsa, M, c, "base")
+    if isinstance(m, LibRaised):
+        return
+    for xs in gen.all_strings(["a", "b"], 3):
+        have = ctx.call("call", guarded, m, xs)
+        if not ctx.eq("call", M, have, weight(xs), what=f"chain of {len(c['states'])} states, xs={xs}"):
+            break
+    er = ctx.call("epsremove", lambda: m.epsremove)
+    if not isinstance(er, LibRaised):
+        ctx.check("epsremove|eps_arc", all(a != "" for _, a, _, _ in er.arcs()), "epsremove left an epsilon arc")
+    tw = ctx.call("total_weight", guarded, m.total_weight)
+    ctx.eq("total_weight", M, tw, total(), what="total")
+
+
 def check(case, ctx):
+    if case["m"].get("chain"):
+        return check_chain(case, ctx)
     c = case["m"]
     M = model(c["regime"])
     A = RA.from_case(M, c)
